@@ -57,6 +57,12 @@ impl C12 {
 pub fn twin(f: &F) -> F {
     match f {
         F::Var(v) => F::bin("&", F::var(v), F::var(v)),
+        // the universal operators are spelled through their duals - exactly how the evaluator
+        // defines them (AX = ~EX~, AG = ~EF~, AF = ~EG~), so the raw set is the same, but no
+        // rewriting of operator chains (e.g. a collapse of `AX AX`) can touch the twin
+        F::Un("AX", a) => F::un("~", F::un("EX", F::un("~", twin(a)))),
+        F::Un("AG", a) => F::un("~", F::un("EF", F::un("~", twin(a)))),
+        F::Un("AF", a) => F::un("~", F::un("EG", F::un("~", twin(a)))),
         F::Un(op, a) => F::Un(op, Box::new(twin(a))),
         F::Bin(op, a, b) => F::Bin(op, Box::new(twin(a)), Box::new(twin(b))),
         F::Hyb(op, v, d, a) => {
@@ -144,6 +150,11 @@ fn near_miss(rng: &mut Rng, v: &str, outer: Option<&str>, dom: Option<&str>) -> 
         F::hyb("!", v, None, F::un("AG", F::un("EX", x()))),
         F::hyb("!", v, None, F::un("~", F::un("AX", x()))),
         F::hyb("!", v, None, F::bin("&", F::un("AX", x()), F::Const(true))),
+        // proper prefixes of the patterns' operator chains
+        F::hyb("!", v, None, x()),
+        F::hyb("!", v, None, F::un("EF", F::un("EF", x()))),
+        F::hyb("!", v, None, F::un("AG", F::un("AG", F::un("EF", x())))),
+        F::hyb("!", v, None, F::un("AX", F::un("AX", F::un("AX", x())))),
     ];
     if let Some(o) = outer {
         opts.push(F::hyb("!", v, None, F::un("AG", F::un("EF", F::var(o)))));
